@@ -4,12 +4,17 @@
     the harness can observe ([rng_flag]: the plan was identical under a second RNG seed). *)
 From V.Lib Require Import Base MachInt.
 From V.Gen Require Import C16Consts.
-From V.C16 Require Import Model Spec Corr Wf ProofsSeries ProofsL125 ProofsSplit ProofsPlan Proofs.
+From V.C16 Require Import Model Spec Corr Wf ProofsSeries ProofsL125 ProofsSplit ProofsLadder ProofsPlan Proofs.
 From Coq Require Import ZifyBool.
 Local Open Scope Z_scope.
 
 Definition rng_flag (c : case) : bool :=
-  match c with Plan _ _ _ _ _ _ _ same => same | Engine _ _ _ _ _ same => same | _ => true end.
+  match c with
+  | Plan _ _ _ _ _ _ _ same => same
+  | PlanNew _ _ _ _ _ _ _ _ _ same => same
+  | Engine _ _ _ _ _ same => same
+  | _ => true
+  end.
 
 Lemma lz_eqb_eq a b : lz_eqb a b = true <-> a = b.
 Proof. apply list_eqb_spec. intros x y. apply Z.eqb_eq. Qed.
@@ -78,6 +83,62 @@ Proof.
     rewrite R1, lz_eqb_refl. cbn [andb].
     destruct (cap <=? Z.of_nat (length (canonical_split (Z.to_nat cap) total buffer fee (nc =? 1)))) eqn:L;
       [reflexivity|]. cbn [orb]. specialize (R2 ltac:(lia)). lia.
+Qed.
+
+(** caller-chosen bounds *)
+Lemma forallb_member L l : Forall (fun s => In s L) l -> forallb (fun v => existsb (Z.eqb v) L) l = true.
+Proof.
+  induction 1 as [|x l Hx _ IH]; [reflexivity|]. cbn [forallb]. rewrite IH, andb_true_r.
+  apply existsb_exists. exists x. split; [exact Hx | apply Z.eqb_refl].
+Qed.
+
+Lemma gplan_core_bridge L mind maxd total nc cap buffer fee (orc : oracle) p :
+  Ladder L mind maxd -> zatoshi total -> zatoshi buffer -> zatoshi fee -> 0 <= cap ->
+  plan (mkStrategy cap maxd mind buffer) total nc fee orc = Ok p ->
+  gplan_core_ok L total nc cap buffer fee p = true.
+Proof.
+  intros HL Ht Hb Hf Hc Hp.
+  destruct (plan_crossings_g total nc cap buffer fee orc L mind maxd HL Ht Hb Hf Hc p Hp) as [C1 [C2 [C3 [k C4]]]].
+  destruct (plan_conservation_g total nc cap buffer fee orc L mind maxd HL Ht Hb Hf Hc p Hp) as [V1 [V2 [V3 [V4 [V5 [V6 V7]]]]]].
+  unfold gplan_core_ok. cbn zeta.
+  rewrite (forallb_member _ _ C1), C2. cbn [andb].
+  assert (E3 : (Z.of_nat (length (p_cross p)) <=? cap) = true) by lia. rewrite E3. cbn [andb].
+  rewrite C4 at 1. rewrite is_prefix_firstn. cbn [andb].
+  rewrite V1, lz_eqb_refl. cbn [andb].
+  rewrite <- V1.
+  assert (E4 : (p_migr p =? sumZ (p_cross p)) = true) by lia.
+  assert (E5 : (p_total p =? total) = true) by lia.
+  assert (E6 : (p_buf p =? buffer) = true) by lia.
+  assert (E7 : (sumZ (p_out p) + p_fees p + optZ (p_change p) =? total) = true) by lia.
+  assert (E8 : (0 <=? p_fees p) = true) by lia.
+  rewrite E4, E5, E6, E7, E8. cbn [andb].
+  destruct (p_change p) as [c|] eqn:Ch; [|reflexivity]. specialize (V7 c eq_refl). lia.
+Qed.
+
+Lemma gplan_bridge i total nc cap maxd buffer fee os p :
+  In i (seq 0 20) -> zatoshi (10 ^ Z.of_nat i) -> zatoshi maxd ->
+  zatoshi total -> zatoshi buffer -> zatoshi fee -> 0 <= cap ->
+  plan (mkStrategy cap maxd (10 ^ Z.of_nat i) buffer) total nc fee (eval_oracle os) = Ok p ->
+  gplan_ok total nc cap maxd (10 ^ Z.of_nat i) buffer fee os p = true.
+Proof.
+  intros Hi Hmn Hmx Ht Hb Hf Hc Hp. set (mind := 10 ^ Z.of_nat i) in *.
+  assert (HL : Ladder (series_of mind maxd) mind maxd) by (apply ladder_of; unfold zatoshi in *; lia || assumption).
+  destruct (plan_fees_g total nc cap buffer fee _ _ mind maxd HL Ht Hb Hf Hc p Hp) as [F1 F2].
+  pose proof (plan_residual_g total nc cap buffer fee (eval_oracle os) _ mind maxd HL Ht Hb Hf Hc p) as R.
+  unfold gplan_ok. cbn zeta.
+  rewrite (gplan_core_bridge _ mind maxd total nc cap buffer fee _ p HL Ht Hb Hf Hc Hp). cbn [andb].
+  apply andb_true_iff. split.
+  - unfold accepted_answer. destruct (p_cross p) as [|x l] eqn:Cr.
+    + rewrite F1 by reflexivity. reflexivity.
+    + destruct (F2 ltac:(discriminate)) as [a [Ha Hfees]]. rewrite Ha. lia.
+  - destruct (eval_oracle os O (map (fun c => c + buffer)
+               (split_of (series_of mind maxd) (Z.to_nat cap) total buffer fee (nc =? 1)))) as [a|] eqn:A; [|reflexivity].
+    destruct (Z.of_N a =? assumed_of (series_of mind maxd) (Z.to_nat cap) total buffer fee (nc =? 1)) eqn:Q; [|reflexivity].
+    apply Z.eqb_eq in Q. destruct (R a Hp eq_refl Q) as [R1 R2].
+    rewrite R1, lz_eqb_refl. cbn [andb].
+    destruct (maxd <? mind) eqn:MM; [reflexivity|]. cbn [orb].
+    destruct (cap <=? Z.of_nat (length (split_of (series_of mind maxd) (Z.to_nat cap) total buffer fee (nc =? 1)))) eqn:LL;
+      [reflexivity|]. cbn [orb]. specialize (R2 ltac:(lia) ltac:(lia)). lia.
 Qed.
 
 (** the oracle-free clauses do not look at the number of oracle questions *)
@@ -160,7 +221,8 @@ Qed.
 Theorem agree_implies_property c :
   wf_case c = true -> rng_flag c = true -> run_case c = true -> prop_case c = true.
 Proof.
-  destruct c as [total nc cap buffer fee os o same | hi floor o | v o | cross buffer o | notes cap buffer fee o same];
+  destruct c as [total nc cap buffer fee os o same | hi floor o | v o | cross buffer o
+                 | total nc cap maxd mind buffer fee os o same | notes cap buffer fee o same];
     cbn [wf_case rng_flag run_case prop_case]; intros W G R.
   - subst same. cbn [andb].
     repeat match goal with H : _ && _ = true |- _ => apply andb_true_iff in H; destruct H end.
@@ -177,6 +239,17 @@ Proof.
     rewrite is_canonical_canonicalb in R. rewrite Bool.eqb_true_iff in R. subst b.
     apply Bool.eqb_reflx.
   - apply andb_true_iff in W. destruct W as [W1 W2]. apply stored_bridge; assumption.
+  - subst same. cbn [andb].
+    repeat match goal with H : _ && _ = true |- _ => apply andb_true_iff in H; destruct H end.
+    match goal with H : is_pow10 mind = true |- _ => destruct (is_pow10_P mind H) as [i [Hi ->]] end.
+    assert (Hc : 0 <= cap) by lia.
+    assert (EX : exists pm, plan (mkStrategy cap maxd (10 ^ Z.of_nat i) buffer) total nc fee (eval_oracle os) = Ok pm).
+    { apply (plan_total_ok_g total nc cap buffer fee _ (series_of (10 ^ Z.of_nat i) maxd)); auto using is_zat_P.
+      apply ladder_of; [exact Hi | |];
+        match goal with H : is_zat ?v = true |- ?v <= _ => apply is_zat_P in H; unfold zatoshi in H; lia end. }
+    destruct EX as [pm Em]. rewrite Em in R. destruct o as [p| |]; cbn [outcome_eqb] in R; try discriminate.
+    apply planrec_eqb_eq in R. subst p.
+    apply gplan_bridge; auto using is_zat_P.
   - subst same. cbn [andb].
     repeat match goal with H : _ && _ = true |- _ => apply andb_true_iff in H; destruct H end.
     assert (Hc : 1 <= cap) by lia.
